@@ -7,6 +7,15 @@ src="$1"; id="$2"; race="${3:-}"
 cd /verif
 mkdir -p seeded/$id
 cp "$src/patch.diff" "$src/demo_test.go" "$src/agent_meta.json" seeded/$id/
+# the agents' worktrees may be one hook commit behind /repo: re-derive the patch against HEAD when needed
+if ! git -C /repo apply --check /verif/seeded/$id/patch.diff 2>/dev/null; then
+  if git -C /repo apply --3way /verif/seeded/$id/patch.diff >/dev/null 2>&1 && ! git -C /repo diff HEAD | grep -q '^[+-]<<<<<<<'; then
+    git -C /repo diff HEAD > /verif/seeded/$id/patch.diff; echo "patch re-derived against /repo HEAD (3-way)"
+  else
+    echo "PATCH DOES NOT APPLY to /repo HEAD"
+  fi
+  git -C /repo checkout -q HEAD -- . ; git -C /repo reset -q --hard HEAD
+fi
 echo "== confirm $id"
 tools/confirm_mut.sh /verif/seeded/$id $race 2>&1 | tee seeded/$id/confirm.txt
 echo "== quick check"
